@@ -49,6 +49,7 @@ class Acc(object):
         self.c = collections.Counter()
         self.maxes = {}
         self.current = None       # instance being executed (for the watchdog)
+        self.data = {}            # free-form per-task payload, merged by dict.update
 
     def sample(self, s):
         if len(self.samples) < MAX_SAMPLES:
@@ -86,6 +87,7 @@ class Acc(object):
         self.c.update(other.c)
         for k, v in other.maxes.items():
             self.mx(k, v)
+        self.data.update(other.data)
         return self
 
 
